@@ -690,6 +690,16 @@ fn convert_roundtrip_family(out: &mut Out) {
             out.cex(fam, format!("class=number-above-u32-max-silently-changed SemVer {text:?} ({field} above 2^32-1) converts to PEP 440 {pep:?} instead of being rejected"));
         }
     }
+    // "a numeric field is never silently replaced by another number - a value that cannot be represented is rejected": SemVer texts with a core number
+    // the u64 fields cannot hold are either refused or read back unchanged
+    for text in ["18446744073709551616.0.0", "1.18446744073709551616.3", "1.2.18446744073709551616-rc.1", "1.2.99999999999999999999999+b"] {
+        out.cases += 1;
+        if let Ok(v) = SemVer::from_str(text) {
+            if v.to_string() != text {
+                out.cex(fam, format!("class=semver-core-number-silently-changed SemVer text {text:?} is accepted and reads back as {:?}", v.to_string()));
+            }
+        }
+    }
 }
 
 // ------------------------------------------------------------------ branch rules
@@ -748,9 +758,12 @@ fn branch_rules_sets(out: &mut Out) {
         vec![mk("*", L::Alpha, None, PostMode::Commit), mk("release/*", L::Rc, None, PostMode::Tag)],
         vec![mk("release/*", L::Rc, None, PostMode::Tag), mk("release/1/*", L::Beta, None, PostMode::Commit)],
         vec![mk("main", L::Rc, Some(9), PostMode::Tag)],
+        // an exact rule listed after a wildcard that already matches the same name: the earlier rule wins
+        vec![mk("release/*", L::Rc, None, PostMode::Tag), mk("release/hotfix", L::Beta, Some(4), PostMode::Commit), mk("*", L::Alpha, None, PostMode::Commit)],
+        vec![mk("*", L::Alpha, None, PostMode::Commit), mk("main", L::Rc, Some(9), PostMode::Tag)],
         vec![],
     ];
-    let branches = ["", "develop", "developer", "release/1", "release/1/2", "releases", "main", "feature/7", "é/1"];
+    let branches = ["", "develop", "developer", "release/1", "release/1/2", "releases", "main", "feature/7", "é/1", "release/hotfix"];
     for set in &sets {
         let rules = match BranchRules::new(set.clone()) { Ok(r) => r, Err(_) => continue };
         for b in branches {
@@ -1095,7 +1108,10 @@ fn schema_family(out: &mut Out) {
 
 fn parts_family(out: &mut Out, semver: bool) {
     if semver {
-    for s in ["1.2.3", "1.2.3-alpha.1", "1.2.3+b.7", "0.0.0-rc.1.x+meta.5.z", "10.20.30-0a.b-c", "1.2.3+Feature.X", "1.0.0-SNAPSHOT", "2.0.0-rc.1+JIRA.1234.gABC123", "1.0.0-B.a+A.b"] {
+    // the last two are longer than 128 / 300 characters (long branch names in the build part): no length is special
+    let long1 = format!("1.2.3-rc.1+dependabot.npm.and.yarn.{}.gabc1234", "very.long.scope.name.with.many.segments.".repeat(3).trim_end_matches('.'));
+    let long2 = format!("1.2.3-{}+{}", "x.".repeat(80).trim_end_matches('.'), "y9.".repeat(90).trim_end_matches('.'));
+    for s in ["1.2.3", "1.2.3-alpha.1", "1.2.3+b.7", "0.0.0-rc.1.x+meta.5.z", "10.20.30-0a.b-c", "1.2.3+Feature.X", "1.0.0-SNAPSHOT", "2.0.0-rc.1+JIRA.1234.gABC123", "1.0.0-B.a+A.b", long1.as_str(), long2.as_str()] {
         out.cases += 1;
         let v = SemVer::from_str(s).unwrap();
         let mut r = v.to_base_part();
@@ -1614,8 +1630,12 @@ fn semver_roundtrip_family(out: &mut Out) {
     }
     for core in ["18446744073709551616.0.0", "0.18446744073709551616.0", "v0.0.99999999999999999999"] {
         out.cases += 1;
-        if let Err(e) = SemVer::from_str(core) {
-            out.cex(fam, format!("class=core-number-above-u64-max {core:?} matches the SemVer 2.0.0 grammar but was rejected: {e}"));
+        match SemVer::from_str(core) {
+            Err(e) => out.cex(fam, format!("class=core-number-above-u64-max {core:?} matches the SemVer 2.0.0 grammar but was rejected: {e}")),
+            // refusing what cannot be represented is the recorded finding; accepting it as another number is a different matter
+            Ok(p) => if p.to_string() != core.trim_start_matches('v') {
+                out.cex(fam, format!("class=core-number-silently-changed {core:?} was accepted and prints as {:?}", p.to_string()));
+            },
         }
     }
     for bad in ["+1.0.0", "1.+0.0", "1.0.+0", "-1.0.0", "1.0.0-+1", "1 .0.0", "1.0.0.", ".1.0.0", "1.0.0+a+b", "01.0.0", "1.0", "1.0.0-", "1.0.0-01", "1.0.0+", "1.0.0-a..b", " 1.0.0", "1.0.0 ", "1.0.0\n", "1.0.0-é", "١.0.0", "V1.0.0", "vv1.0.0",
